@@ -443,6 +443,26 @@ def run_history(case):
                                'cmd': r.brief() if r else None,
                                'history': case['steps'][:k + 1]}})
                 break
+            # ---- (i') the same through --all-users, the user being the second
+            # account of the database (the first one has no trash anywhere)
+            env_ = w.env()
+            if case.get('index', 0) % 3 == 0 and not env_.get('XDG_DATA_HOME') \
+                    and (env_.get('HOME') or '').startswith('/'):
+                pw = [['first', 0 if case['uid'] != 0 else 1, w.R + '/nonexistent'],
+                      ['me', case['uid'], env_['HOME']]]
+                ra = run.run(w, 'list', ['--all-users'], stdin=b'',
+                             plan={'passwd': pw})
+                gota = sorted(l for l in ra.outtext().split('\n') if l)
+                obs['list_all_users_comparisons'] = obs.get('list_all_users_comparisons', 0) + 1
+                if gota != want:
+                    out['violations'].append({
+                        'mechanism': 'list-all-users-differs-from-model/after-%s' % st['op'],
+                        'detail': {'step': hist,
+                                   'only_in_list': [x for x in gota if x not in want][:6],
+                                   'only_in_model': [x for x in want if x not in gota][:6],
+                                   'cmd': ra.brief(),
+                                   'history': case['steps'][:k + 1]}})
+                    break
             # ---- (ii) on-disk reader vs model
             obs['disk_comparisons'] = obs.get('disk_comparisons', 0) + 1
             disk = disk_entries(w)
